@@ -9,16 +9,13 @@ Open Scope Z_scope.
 
    Inv s      := NoDup (numbers_of s) /\ (forall n o, In (n, o) (cache s) -> In o (objs s))
    Linked s   := clink s = true -> forall o, In o (objs s) -> olink s o = LThis
-   key_inj s  := forall a b, okey s a = okey s b -> a = b          (== is identity)
 
    premises on one operation, each evaluated in the state the operation is applied to:
    op_ok s o    := match o with
                    | SetNum x n => olink s x = LThis \/ ~ In x (objs s) \/ ~ In n (numbers_of s)
-                   | Remove x   => find_eq s x = Some x \/ find_eq s x = None
                    | _ => True end
-   op_same s o  := the Remove clause of op_ok alone
    op_keeps s o := match o with FAppend x => ~ In x (objs s) | _ => True end
-   ops_ok / ops_same / ops_keep: the premise holds for every operation of the sequence *)
+   ops_ok / ops_keep: the premise holds for every operation of the sequence *)
 
 (* 1. the constructor establishes the invariant (and the link clause when given linked members) *)
 Theorem C06_init_inv :
@@ -33,41 +30,32 @@ Theorem C06_init_linked :
 Proof. exact init_linked. Qed.
 Print Assumptions C06_init_linked.
 
-(* 2. every operation preserves the invariant — not at full strength: the faithful model of the
-      unchanged code breaks it through remove(x) with x equal to, but not identical with, a member
-      (C06_inv_refuted), and a collection cannot see the renumbering of a member that is not linked
-      to its problem.  op_ok excludes exactly these two. *)
-Theorem C06_step_inv_partial : forall s o, Inv s -> op_ok s o -> Inv (fst (step s o)).
+(* 2. every operation preserves the invariant.  The premise op_ok: a collection cannot see the
+      renumbering of a member that is not linked to its problem (free-standing collection, member
+      taken over by another problem's collection); renumbering such a member onto a number in use
+      is excluded.  Theorem 6 shows that nothing is excluded for a problem's own collection. *)
+Theorem C06_step_inv : forall s o, Inv s -> op_ok s o -> Inv (fst (step s o)).
 Proof. exact step_inv. Qed.
-Print Assumptions C06_step_inv_partial.
+Print Assumptions C06_step_inv.
 
 (* 3. hence it holds in every state reachable inside the premise *)
-Theorem C06_inv_partial : forall ops s, Inv s -> ops_ok s ops -> Inv (run s ops).
+Theorem C06_inv : forall ops s, Inv s -> ops_ok s ops -> Inv (run s ops).
 Proof. exact run_inv. Qed.
-Print Assumptions C06_inv_partial.
+Print Assumptions C06_inv.
 
-Example C06_inv_partial_satisfiable :
+Example C06_inv_satisfiable :
   exists s ops, Inv s /\ ops_ok s ops /\ List.length ops = 3%nat /\ objs (run s ops) <> objs s.
 Proof. exact inv_partial_satisfiable. Qed.
-Print Assumptions C06_inv_partial_satisfiable.
+Print Assumptions C06_inv_satisfiable.
 
-(* 4. the full statement is false of the unchanged code: remove(twin), renumber the removed object
-      back, and get() answers an object that is not a member.  Only SetNum and Remove are used, the
-      collection is a problem's, no member is taken over by another problem. *)
-Theorem C06_inv_refuted :
-  exists s ops n o,
-    Inv s /\ Linked s /\ clink s = true /\ ops_keep s ops /\
-    (forall p, In p ops -> match p with Remove _ => True | SetNum _ _ => True | _ => False end) /\
-    snd (get (run s ops) n) = Some o /\ ~ In o (objs (run s ops)).
-Proof. exact inv_refuted. Qed.
-Print Assumptions C06_inv_refuted.
-
-Theorem C06_refuted_outside_premise :
-  ops_ok refute_st [SetNum 0%nat 6] /\
-  ~ op_ok (run refute_st [SetNum 0%nat 6]) (Remove 1%nat) /\
-  ~ ops_ok refute_st refute_ops.
-Proof. exact refuted_outside_premise. Qed.
-Print Assumptions C06_refuted_outside_premise.
+(* 4. regression witness of the repaired defect F-C06-remove-equal-object: remove() given an object
+      that equals the member but is not the member, after the member was renumbered; the removed
+      object is renumbered back: nothing is found under that number and the cache is empty *)
+Theorem C06_remove_equal_object_repaired :
+  objs (run twin_st twin_ops) = [] /\ snd (get (run twin_st twin_ops) 5) = None /\
+  cache (run twin_st twin_ops) = [].
+Proof. exact remove_equal_object_repaired. Qed.
+Print Assumptions C06_remove_equal_object_repaired.
 
 (* 5. a problem's collection keeps its members linked as long as no other problem's collection
       takes one of them over *)
@@ -75,35 +63,27 @@ Theorem C06_linked : forall ops s, Linked s -> ops_keep s ops -> Linked (run s o
 Proof. exact run_linked. Qed.
 Print Assumptions C06_linked.
 
-(* 6. full strength for a problem's collection of cells, transforms or universes (== is identity):
-      every sequence of operations keeps the invariant; the only side condition is that no
-      member is appended to another problem's collection *)
-Theorem C06_inv_identity_kinds :
-  forall ops s, Inv s -> Linked s -> clink s = true -> key_inj s -> ops_keep s ops ->
-    Inv (run s ops) /\ Linked (run s ops).
-Proof. exact run_inv_identity. Qed.
-Print Assumptions C06_inv_identity_kinds.
-
-Example C06_inv_identity_kinds_satisfiable :
-  exists s ops, Inv s /\ Linked s /\ clink s = true /\ key_inj s /\ ops_keep s ops /\
-                ops_same s ops /\ objs s <> [] /\ List.length ops = 4%nat.
-Proof. exact inv_identity_satisfiable. Qed.
-Print Assumptions C06_inv_identity_kinds_satisfiable.
-
-(* 7. a problem's collection of any kind, surfaces and materials included: the premise that is
-      left is op_same (remove() is given the member itself, or an object no member equals) *)
-Theorem C06_inv_linked_partial :
-  forall ops s, Inv s -> Linked s -> clink s = true -> ops_keep s ops -> ops_same s ops ->
+(* 6. full strength for a problem's collection of any of the five kinds: every sequence of
+      operations keeps the invariant; the only side condition is that no member is appended to
+      another problem's collection *)
+Theorem C06_inv_linked :
+  forall ops s, Inv s -> Linked s -> clink s = true -> ops_keep s ops ->
     Inv (run s ops) /\ Linked (run s ops).
 Proof. exact run_inv_linked. Qed.
-Print Assumptions C06_inv_linked_partial.
+Print Assumptions C06_inv_linked.
 
-(* 8. the boolean premise the harness asks the model for is the premise of the theorems *)
+Example C06_inv_linked_satisfiable :
+  exists s ops, Inv s /\ Linked s /\ clink s = true /\ ops_keep s ops /\
+                objs s <> [] /\ List.length ops = 4%nat.
+Proof. exact inv_linked_satisfiable. Qed.
+Print Assumptions C06_inv_linked_satisfiable.
+
+(* 7. the boolean premise the harness asks the model for is the premise of the theorems *)
 Theorem C06_premise_decided : forall s o, op_okb s o = true <-> op_ok s o.
 Proof. exact op_okb_spec. Qed.
 Print Assumptions C06_premise_decided.
 
-(* 9. look-ups are current: get returns exactly the member whose number is n now *)
+(* 8. look-ups are current: get returns exactly the member whose number is n now *)
 Theorem C06_lookup :
   forall s n o, Inv s -> (snd (get s n) = Some o <-> In o (objs s) /\ num s o = n).
 Proof. exact get_lookup. Qed.
@@ -114,7 +94,7 @@ Theorem C06_lookup_none :
 Proof. exact get_lookup_none. Qed.
 Print Assumptions C06_lookup_none.
 
-(* 10. requested numbers are free *)
+(* 9. requested numbers are free *)
 Theorem C06_request_fresh :
   forall s a k s' n, request_number s a k = (s', RNum n) -> ~ In n (numbers_of s').
 Proof. exact request_fresh. Qed.
@@ -125,13 +105,13 @@ Theorem C06_next_fresh :
 Proof. exact next_fresh. Qed.
 Print Assumptions C06_next_fresh.
 
-(* 11. request_number terminates: the model's fuel |objs|+1 is never exhausted *)
+(* 10. request_number terminates: the model's fuel |objs|+1 is never exhausted *)
 Theorem C06_request_terminates :
   forall s a k, k <> 0 -> forall s', request_number s a k <> (s', RErr OutOfFuel).
 Proof. exact request_terminates. Qed.
 Print Assumptions C06_request_terminates.
 
-(* 12. a NumberConflictError leaves members, numbers and links unchanged (the members of the other
+(* 11. a NumberConflictError leaves members, numbers and links unchanged (the members of the other
        problem's collection too) *)
 Theorem C06_conflict_atomic :
   forall s o s', Inv s -> step s o = (s', RErr NumberConflict) ->
@@ -144,14 +124,14 @@ Theorem C06_conflict_atomic_foreign :
 Proof. exact conflict_atomic_foreign. Qed.
 Print Assumptions C06_conflict_atomic_foreign.
 
-(* 13. so does a TypeError *)
+(* 12. so does a TypeError *)
 Theorem C06_type_error_atomic :
   forall s o s', step s o = (s', RErr TypeErr) ->
     objs s' = objs s /\ (forall x, num s' x = num s x) /\ (forall x, olink s' x = olink s x).
 Proof. exact type_error_atomic. Qed.
 Print Assumptions C06_type_error_atomic.
 
-(* 14. the invariant is not vacuous *)
+(* 13. the invariant is not vacuous *)
 Example C06_inv_nonvacuous : exists s, Inv s /\ objs s <> [] /\ cache s <> [].
 Proof. exact inv_nonvacuous. Qed.
 Print Assumptions C06_inv_nonvacuous.
